@@ -47,6 +47,13 @@ def pinned_cases():
     yield 'two-way', {'cfg': cfg, 'ops': [['send', 'A', 11, 1], ['send', 'B', 5, 2], ['run', [0, 1, 2, 3] * 8],
                                           ['send', 'A', 1, 3], ['pop', 'B']]}
     yield 'twelve-waiting', {'cfg': cfg, 'ops': [['estab']] + [['send', 'A', 3 + i, i] for i in range(12)] + [['send', 'B', 4, 50]]}
+    # every bundle is popped before the next one is queued; the later ones are shorter than, as long as, and longer than what
+    # the receiver has held before (a receive buffer must not carry anything over from an earlier transfer)
+    for name, lengths in (('popped-then-shorter', [45, 62, 62, 23, 1, 0, 30]), ('popped-then-shorter-2', [700, 5, 0, 699, 701])):
+        ops = [['estab']]
+        for idx, length in enumerate(lengths):
+            ops += [['send', 'A', length, idx + 1], ['run', [0, 1, 2, 3] * 30], ['pop', 'B']]
+        yield name, {'cfg': cfg, 'ops': ops}
     yield 'zero-length', {'cfg': cfg, 'ops': [['send', 'A', 0, 1], ['send', 'A', 4, 2]]}
     cfg2 = dict(cfg, cap_ab=5, cap_ba=1, regime='bytewise')
     yield 'backpressure', {'cfg': cfg2, 'ops': [['send', 'A', 40, 1], ['run', list(range(40))], ['send', 'B', 9, 2]]}
